@@ -3,6 +3,7 @@ From Coq Require Extraction ExtrOcamlBasic ExtrOcamlString.
 From Coq Require Import List Arith Ascii.
 Require Import TT.Model.Str TT.Model.C07TypeParse TT.Model.C07Harvest TT.Model.C07Reach.
 Require Import TT.Spec.TsLex TT.Spec.TsModule TT.Spec.TsObs TT.Spec.C07Spec.
+Require Import TT.Model.C07Layout TT.Spec.C07LayoutSpec.
 Import ListNotations.
 
 Definition sx_names (l : list str) : sx := SL (map SA l).
@@ -10,20 +11,35 @@ Definition sx_obs (o : obs) : sx := SL [sx_names (ob_types o); sx_names (ob_alia
 
 (* (in_domain (kf flags: field_result odd_name inline_mod payload_expr)
     spec model? (obs ok corr)plain (obs ok corr)zod (agree_b)) *)
-Definition c07_eval (p : project) (plain zod : str) : sx :=
-  let spec := reachable_spec p in
-  let model := C07Reach.declared o_default p in
+(* pm: the project the model runs on; ps: the project of the specification (the same for c07_eval; for a walk the
+   files C03Discover.accepted keeps against those of the property text, equal by C07_layout_scanned_is_spec) *)
+Definition c07_eval_on (pm ps : project) (plain zod : str) : sx :=
+  let spec := reachable_spec ps in
+  let model := C07Reach.declared o_default pm in
   let op := observe_plain plain in
   let oz := observe_zod zod in
-  SL [sx_bool (in_domain p);
-      SL [sx_bool (kf_c07_field_result p); sx_bool (kf_c07_odd_name p); sx_bool (kf_c07_inline_mod p);
-          sx_bool (kf_c07_payload_expr p)];
+  SL [sx_bool (in_domain ps);
+      SL [sx_bool (kf_c07_field_result ps); sx_bool (kf_c07_odd_name ps); sx_bool (kf_c07_inline_mod ps);
+          sx_bool (kf_c07_payload_expr ps)];
       sx_names spec;
       sx_opt sx_names model;
       SL [sx_obs op; sx_bool (c07_ok spec op); sx_bool (c07_corr model op)];
       SL [sx_obs oz; sx_bool (c07_ok spec oz); sx_bool (c07_corr model oz)];
       (* the decidable premises of C07_exact *)
-      SL [sx_bool (agree_b p)]].
+      SL [sx_bool (agree_b ps)]].
+Definition c07_eval (p : project) (plain zod : str) : sx := c07_eval_on p p plain zod.
+
+(* a walk of the source tree (every file written to disk, those below target/ and .git/ included) and the project
+   path: the model scans with C03Discover.accepted, the expectation is layout_reachable (C07_layout_oracle_spec);
+   appended: the scanned paths, the ignored flags, whether the two projects coincide *)
+Definition c07_layout_eval (root : str) (lp : lproject) (plain zod : str) : sx :=
+  let pm := scanned root lp in
+  let ps := spec_project lp in
+  match c07_eval_on pm ps plain zod with
+  | SL l => SL (l ++ [sx_names (map fst pm); SL (map (fun f => sx_bool (ignored f)) lp);
+                      sx_bool (same_set_b (map fst pm) (map fst ps))])
+  | x => x
+  end.
 
 (* the harvester alone, for the string-level stream *)
 Definition c07_harvest (s : str) : list str := dedup (extract_type_names s).
@@ -31,4 +47,4 @@ Definition c07_ts_names (s : str) : list str := dedup (ts_of s).
 
 Extraction Language OCaml.
 Definition c07_field_skip (attrs : list str) : bool := field_skip attrs.
-Extraction "tt_c07.ml" c07_eval c07_harvest c07_ts_names c07_field_skip.
+Extraction "tt_c07.ml" c07_eval c07_layout_eval c07_harvest c07_ts_names c07_field_skip.
